@@ -23,6 +23,9 @@ pub struct CloudSpec {
     /// value vectors the writer must refuse: (index of the accepted point in front of which the
     /// call is made, values). An accepted call is recorded as an error of the program.
     pub rejects: Vec<(usize, Vec<m::Val>)>,
+    /// call set_color_limits(None) / set_intensity_limits(None) explicitly (before an override of
+    /// `meta`, if there is one): the file then carries no limits of that kind unless overridden
+    pub clear_limits: (bool, bool),
 }
 
 #[derive(Clone, Debug)]
@@ -299,6 +302,12 @@ fn run_inner(dev: Dev, p: &Program, o: &ExecOpts, res: &mut RunResult, cur: &mut
                 pw.set_temperature(mm.temperature);
                 pw.set_humidity(mm.humidity);
                 pw.set_atmospheric_pressure(mm.pressure);
+                if c.clear_limits.0 {
+                    pw.set_color_limits(None);
+                }
+                if c.clear_limits.1 {
+                    pw.set_intensity_limits(None);
+                }
                 if let Some(cl) = &mm.color_limits {
                     pw.set_color_limits(Some(color_limits_to_e57(cl)));
                 }
